@@ -1,4 +1,5 @@
 """C27 -- sticky lifecycle: opt-in, drain, client token tracking.  Spec: spec/sticky/StickyLife.tla."""
+import contextlib
 from drivers._sticky_world import LifeWorld
 from vf import table
 from vf.core import Ctx
@@ -20,7 +21,8 @@ META = {
             "this model (see C25/C26).",
 }
 
-STATEMENT = ["ViewExact", "OpenOnlyWithOptIn", "NeverOpenWhileDraining", "DrainErrorIsTyped", "ExistingServeDuringDrain"]
+STATEMENT = ["ViewExact", "OpenOnlyWithOptIn", "NeverOpenWhileDraining", "DrainErrorIsTyped", "ExistingServeDuringDrain",
+             "NothingOrphanedAtExit"]
 ALPH = "ocun"
 
 
@@ -68,14 +70,37 @@ def run(ctx: Ctx) -> None:
                 "replayed through the real client view; every request of it is one judged observation; "
                 "non-trivial = distinct histories containing at least one open or close")
     obs, meta = [], []
-    for nodes, labs in paths:
-        beh = g.path_to_behaviour(nodes, labs)
+    def _req(script, via="view"):
+        return {"action": "Req", "state": {"last": {"script": list(script), "via": via}}}
+
+    # histories of the model that are always replayed, whatever the edge cover picked: the view goes through a close (or
+    # loses its session) and tracks a NEW session when the client leaves the block
+    fixed = [[_req("o"), _req("c"), _req("o"), {"action": "Exit"}],
+             [_req("oc"), _req("o"), {"action": "Exit"}],
+             [_req("o"), _req("co"), {"action": "Exit"}],
+             [_req("o"), _req("c"), _req("oc"), _req("o"), {"action": "Exit"}],
+             [_req("o"), {"action": "Exit"}],
+             [_req("o"), _req("u"), _req("c"), {"action": "Exit"}]]
+    behs = [g.path_to_behaviour(nodes, labs) for nodes, labs in paths] + fixed
+    ctx.extra["fixed_histories"] = len(fixed)
+    for beh in behs:
         w = LifeWorld()
         hist = []
         try:
             draining = False
             tainted = False
             for b in beh:
+                if b["action"] == "Exit":
+                    # leave the with_session_token() block; what stays live afterwards was orphaned by the client
+                    w._vcm.__exit__(None, None, None)
+                    w._vcm = contextlib.nullcontext()
+                    o = {"out": "none", "live": w.live(), "view": 0}
+                    c = {"script": ["X"], "via": "exit", "drain": draining, "pre_live": [], "pre_view": 0, "next": len(w.opened) + 1,
+                         "tainted": tainted}
+                    obs.append({"case": c, "obs": o})
+                    hist.append(f"exit live={o['live']}")
+                    meta.append({"history": list(hist)})
+                    continue
                 if b["action"] == "Drain":
                     draining = not draining
                     w.handle.drain() if draining else w.server  # noqa: B018
